@@ -25,6 +25,8 @@ from __future__ import annotations
 import time as _time
 from typing import Any
 
+from harness import runstate as RS
+
 EPOCH = 1_000_000.0
 NTAGS = 3
 MARK = {"created": "C", "started": "S", "uodcommandset": "U", "internalenginecommandset": "I", "completed": "D",
@@ -185,7 +187,7 @@ class CmdRun:
     # ------------------------------------------------------------------ ops
     @property
     def cm(self):
-        return self.engine._command_manager
+        return RS.command_manager(self.engine)
 
     def _life_in_flight(self) -> bool:
         reqs = list(self.cm.cmd_queue.queue) + list(self.cm.cmd_executing)
@@ -198,14 +200,13 @@ class CmdRun:
             return "ok"
         if f[0] == "req":
             k = int(f[1])
-            if not (e._runstate_started and not e._runstate_stopping) or k >= len(self.spec["dur"]):
+            if not (RS.flag(e, "started") and not RS.flag(e, "stopping")) or k >= len(self.spec["dur"]):
                 return "unmodelled"
             bad = len(f) > 2 and f[2] == "bad"
             prog = e.method_manager.parse_inject_code(f"K{k}: bad" if bad else f"K{k}")
             node = prog.children[0]
-            e.tracking.runtimeinfo._injected_node_map[node.id] = node
-            from openpectus.lang.exec.runlog import RuntimeRecord
-            e.tracking.runtimeinfo._add_record(RuntimeRecord.from_node(node))
+            # records of the injected code, as Engine.inject_code's interpreter path registers them (public call)
+            e.tracking.create_injected_node_records(prog)
             iid = e.tracking.create_node_instance_id(node)
             self.ids[iid] = self.next_id
             self.req_names[self.next_id] = f"K{k}"
@@ -225,9 +226,11 @@ class CmdRun:
             return "ok | " + self.obs()
         if f[0] == "tick":
             self.clock.now += self.dt
-            e._last_error = None
+            # did this tick put the engine into its error state?  (an error recorded earlier is told apart by identity)
+            before = e.get_error_state_exception()
             e.tick(self.clock.now, self.dt)
-            return ("err" if e._last_error is not None else "ok") + " | " + self.obs()
+            after = e.get_error_state_exception()
+            return ("err" if after is not None and after is not before else "ok") + " | " + self.obs()
         if f[0] in ("cancel", "force"):
             n = int(f[1])
             iid = next((u for u, o in self.ids.items() if o == n), f"unknown-{n}")
@@ -239,7 +242,7 @@ class CmdRun:
             return r + " | " + self.obs()
         if f[0] == "pause":
             # the paused flag of the run state (Pause / Unpause commands: model M1) as an input
-            e._runstate_paused = f[1] == "1"
+            setattr(e, RS.roles(e)["paused"], f[1] == "1")
             return "ok | " + self.obs()
         if f[0] == "sim":
             # even tags are simulated to the value they really have (0), odd ones to another value
@@ -325,7 +328,7 @@ class CmdRun:
         snaps = "/".join(self.stop_snaps) if self.stop_snaps else "none"
         self.stop_snaps = []
         return (f"ev={ev} ex={ex} qu={qu} in={','.join(inst) or '-'} tr={self._track()} "
-                f"st={int(e._runstate_started)}{int(e._runstate_stopping)}{int(e.tracking.enabled)}{int(e._runstate_paused)} sys={sysc} "
+                f"st={int(RS.flag(e, "started"))}{int(RS.flag(e, "stopping"))}{int(e.tracking.enabled)}{int(RS.flag(e, "paused"))} sys={sysc} "
                 f"run={'-' if rid is None else self.runs[rid]} sim={sim} rs={self.resets} stop={snaps}")
 
 
